@@ -202,6 +202,8 @@ class Asset(DaeObject):
 
     def save(self):
         """Saves the asset info back to :attr:`xmlnode`"""
+        for contributor in self.contributors:
+            contributor.save()
         self._recreateXmlNode()
 
     @staticmethod
